@@ -773,6 +773,8 @@ def _sp_gen(rng):
 
 
 SPAR = Unit(['C18', 'C09'], OPT + 'sample_parameters', _sp_params, yields=_sp_yields, post=_sp_post, cases=_SP_CASES, bounds=[{}],
+            pre=lambda c, v: {'posterior_weights_are_not_negative': c.And(*[c.Le(0, v.self.g_weights[i]) for i in range((c.fixed if c.mode != 'conc' else c.values)['N'])])
+                              if (c.fixed if c.mode != 'conc' else c.values)['N'] else True},
             abstract={'call:get_samples': lambda ex, st, args, kwargs, node: st.get(args[0]).attrs['g_samples'],
                       'call:get_weights': lambda ex, st, args, kwargs, node: st.get(args[0]).attrs['g_weights'],
                       'call:random_int_iter': _h_rii},
